@@ -389,6 +389,9 @@ def accumulators(ctx, rule):
                 return bb in loops[inner]
         return False
 
+    from rules.common import loop_passes
+    ctx.check(loop_passes(body, after_parse_ok(body), hi, [lb]), rule, fn, "segment:no-skip",
+              "every non-empty segment that parses produces exactly one token (none is skipped; rejected ones leave the function)")
     reset_in_loop = set()
     for k, f in enumerate(V3_FIELDS):
         l = acc[f]
